@@ -33,7 +33,13 @@ func (r *vRec) count(w int) int {
 	return n
 }
 
-var errVFault = errors.New("injected write fault")
+var errVFault error = errors.New("injected write fault")
+
+// vErrList is an error of a slice type (like go/scanner.ErrorList): comparing
+// two such values with == panics, so the library must not compare errors.
+type vErrList []string
+
+func (e vErrList) Error() string { return "injected write fault (list)" }
 
 // recW is a plain io.Writer.
 type recW struct {
